@@ -9,3 +9,7 @@ import AGV.Props.C30
 #print axioms AGV.Props.C30.c30_lifecycle_family
 #print axioms AGV.Props.C30.c30_passthrough_needed
 #print axioms AGV.Props.C30.c30_fast_unknown_field_witness
+#print axioms AGV.Props.C30.c30_resolve_once_per_invocation
+#print axioms AGV.Props.C30.c30_sites_balanced_exec
+#print axioms AGV.Props.C30.c30_sites_balanced
+#print axioms AGV.Props.C30.c30_resolve_once_family
